@@ -294,6 +294,15 @@ Definition stat_at (st : bst) (b k : nat) : option lstat := nth_error (block_sta
 Definition edges_at_end (st : bst) : bool :=
   forallb (fun e => match e with (u, k, _) => k =? len st u end) (eds st).
 
+Definition entry_of (s : lstat) : nat := match s with LRef _ e | LAsg _ e | LDel _ e => e end.
+
+(* sanity of a built graph (always true for graphs produced by [build]; checked by the driver):
+   edges leave from block ends, the entry point holds no statement, blocks and entries are in range *)
+Definition graph_ok (ne : nat) (st : bst) : bool :=
+  edges_at_end st && (len st 0 =? 0) && (1 <=? nb st) &&
+  forallb (fun e => match e with (u, _, v) => (u <? nb st) && (v <? nb st) end) (eds st) &&
+  forallb (fun p => (fst p <? nb st) && (entry_of (snd p) <? ne)) (sts st).
+
 (* ControlFlow.normalize, first half: blocks not reachable from the entry point are detached.
    (The second half - removing empty blocks and re-parenting - does not change any i_input.) *)
 Definition reach_step (st : bst) (r : list nat) : list nat :=
